@@ -66,7 +66,7 @@ def run(ctx):
         every_iteration_reaches(ctx, "T3-no-skipped-relator", dt, bi, "rel-loop->scan_both_ways", "some relator is not scanned at a queued row: contradictions/deductions are missed")
     lp = [l for l in loops_in(pc)]
     for h, e, it in lp:
-        extra = sorted(loop_carried_mutables(pc, h, e) - {"iter", "result"})
+        extra = unexpected_carried_state(pc, h, e)
         ctx.ob("T3-per-candidate-state", pc.name, "loop-carried state", "ok" if not extra else "violation",
                "only the result vector is carried between candidate positions" if not extra else "state %s is carried from one candidate position to the next" % extra)
     ctx.require(okn, "T3-canonical-rejects-smaller", ic.name, "return false", "a table is rejected exactly when a re-basing compares smaller (< 0)", "is_canonical's `false` is not guarded by compare_renumbered_from(..) < 0")
